@@ -1483,6 +1483,7 @@ class Engine(Executor):
                                 env_e = with_iters(s2.env, k)
                                 for nm, val in x.flags["iter_env"].items():
                                     env_e.setdefault(nm, val)
+                                    env_e["pre_" + nm] = val          # the variable's value when the iteration began
                                 env_e["yielded"] = PyTuple([v for (v, _l) in s2.out[n_out0:]])
                                 env_e["events"] = PyTuple(list(s2.ghost.get("events", [])))
                                 env_e["exited"] = Z(V.mk(not ends_iteration), "bool")
